@@ -34,7 +34,7 @@ From Coq Require Import List String ZArith Bool.
 Import ListNotations.
 From Anthem Require Import Base.ISet Syntax.Fol Syntax.Asp Sem.Domain Sem.Sat Sem.AspRef Model.Problem
   Model.Strong Model.StrongFull Proofs.SemBase Proofs.DecomposeOk Proofs.StrongOk Proofs.TauStarProgram
-  Proofs.StrongFullOk Proofs.StrongFuel.
+  Proofs.StrongFullOk Proofs.StrongFuel Proofs.ParserImage Proofs.ParserImagePipeline Proofs.NoPanic.
 Open Scope string_scope.
 
 (* the general statement (any direction) *)
@@ -191,6 +191,51 @@ Proof.
   exact (C03_strong_fuel_proof m t pbs Hd (Hn m Hm) Hc).
 Qed.
 Print Assumptions C03_strong_eventually.
+
+(* ---------- SPanic comes from the overflow class only (audit A8 b) ---------- *)
+(* The rewrites of classic.rs panic only outside the parser image (empty guard list, empty variable
+   name); tau*, the pre-gamma simplification and gamma produce parser-image formulas and the whole
+   portfolio preserves the invariant (Properties/C07full.v), so the post-gamma loop never panics:
+   the ONLY panic of the pipeline is F11.  [program_vars_named P]: every variable of P has a
+   non-empty name (what the ASP parser produces; a hand-built program with the variable "" makes tau*
+   bind an empty name). *)
+Theorem C03_panic_only_overflow :
+  forall (fuel : nat) (t : strong_task),
+    st_repr t = ReprTauStar -> program_vars_named (st_left t) -> program_vars_named (st_right t) ->
+    strong_decompose_full_fuel fuel t = SPanic ->
+    ~ no_global_overflow (st_left t) \/ ~ no_global_overflow (st_right t).
+Proof. exact strong_panic_only_overflow. Qed.
+Print Assumptions C03_panic_only_overflow.
+
+Theorem C03_panic_iff_overflow :
+  forall (fuel : nat) (t : strong_task),
+    st_repr t = ReprTauStar -> program_vars_named (st_left t) -> program_vars_named (st_right t) ->
+    (strong_decompose_full_fuel fuel t = SPanic <->
+     ~ no_global_overflow (st_left t) \/ ~ no_global_overflow (st_right t)).
+Proof. exact strong_panic_iff_overflow. Qed.
+Print Assumptions C03_panic_iff_overflow.
+
+(* TOTALITY WITH --simplify (the counterpart of C03_full_total_nosimplify; audit A8 "no totality
+   theorem for st_simplify = true"): outside the overflow class every sufficiently large fuel
+   returns the same list of problems *)
+Theorem C03_full_total :
+  forall t : strong_task,
+    st_repr t = ReprTauStar -> program_vars_named (st_left t) -> program_vars_named (st_right t) ->
+    no_global_overflow (st_left t) -> no_global_overflow (st_right t) ->
+    exists n pbs, forall m, n <= m -> strong_decompose_full_fuel m t = SOk pbs.
+Proof. exact strong_total_outside_overflow. Qed.
+Print Assumptions C03_full_total.
+
+(* mu representation: the same, with the parser image of the natural translation as an explicit
+   hypothesis ([repr_image t P]: every formula of mu(P) has >= 1 guard per comparison and non-empty
+   bound names) - NOT proved for Model/Natural.v, hence _partial *)
+Theorem C03_panic_only_overflow_partial :
+  forall (fuel : nat) (t : strong_task),
+    repr_image t (st_left t) -> repr_image t (st_right t) ->
+    strong_decompose_full_fuel fuel t = SPanic ->
+    ~ no_global_overflow (st_left t) \/ ~ no_global_overflow (st_right t).
+Proof. exact strong_panic_only_overflow_partial. Qed.
+Print Assumptions C03_panic_only_overflow_partial.
 
 (* ---------- non-vacuity ---------- *)
 (* (1) the model computes, inside Coq, exactly what the CLI prints.
